@@ -1341,6 +1341,10 @@ pub fn c17_tilesjson(ctx: &Arc<Ctx>) -> Result<(), String> {
 			let file = write_container(&rt, cont, &work.0, &name, &mut src)?;
 			args.push(format!("[{name}]{file}"));
 		}
+		// the same container behind a pipeline file: an overlay of two zoom ranges of it, the wider one first (the served
+		// zoom range and bounds are those of the union)
+		std::fs::write(work.0.join(format!("{id}o.vpl")), format!("from_overlayed [ from_container filename=\"{id}v.versatiles\" | filter_zoom min=2 max=5, from_container filename=\"{id}v.versatiles\" | filter_zoom min=3 max=4 ]")).map_err(|e| e.to_string())?;
+		args.push(format!("[{id}o]{id}o.vpl"));
 	}
 	// the served bounds describe the served coordinates, also when the server flips / swaps them
 	for (fi, (flags, top)) in [(vec![], (9u32, 12u32)), (vec!["--flip-y"], (9, 19)), (vec!["--swap-xy"], (12, 9)), (vec!["--flip-y", "--swap-xy"], (19, 9))].into_iter().enumerate() {
@@ -1349,7 +1353,7 @@ pub fn c17_tilesjson(ctx: &Arc<Ctx>) -> Result<(), String> {
 	let mut server = Server::start(&work.0, &sargs, &format!("c17f{fi}"))?;
 	let mut cl = Client::connect(server.port)?;
 	for (id, doc, f) in &docs {
-		for suffix in ["v", "p", "d", "t"] {
+		for suffix in ["v", "p", "d", "t", "o"] {
 			let sid = format!("{id}{suffix}");
 			for file in ["tiles.json", "meta.json"] {
 				let target = format!("/tiles/{sid}/{file}");
